@@ -429,6 +429,27 @@ def expectCsrDm (op state : CSR R) : R :=
 /-- `expect_super_csr`: rows 0, n+1, 2(n+1), … of the superoperator (the column-stacked diagonal) -/
 def expectSuperCsr (n : Nat) (op state : CSR R) : R :=
   ((List.range n).map fun k => ((op.r.getD (k * (n + 1)) []).map (ketTimes state)).sum).sum
+
+/-- `_inner_op_csr_ket_ket` -/
+def innerOpCsrKet (conj : R → R) (left op right : CSR R) : R :=
+  ((List.range op.rows).map fun row =>
+    match rowHead? (left.r.getD row []) with
+    | none => 0
+    | some h => conj h * ((op.r.getD row []).map (ketTimes right)).sum).sum
+
+/-- `_inner_op_csr_bra_ket`: the stored entries of the bra's single row, in any order -/
+def innerOpCsrBra (left op right : CSR R) : R :=
+  ((left.r.getD 0 []).map fun q => q.2 * ((op.r.getD q.1 []).map (ketTimes right)).sum).sum
+
+/-- `_inner_csr_ket_ket` -/
+def innerCsrKet (conj : R → R) (left right : CSR R) : R :=
+  ((List.range left.rows).map fun row =>
+    match rowHead? (left.r.getD row []), rowHead? (right.r.getD row []) with
+    | some a, some b => conj a * b
+    | _, _ => 0).sum
+
+/-- `_inner_csr_bra_ket` -/
+def innerCsrBra (left right : CSR R) : R := ((left.r.getD 0 []).map (ketTimes right)).sum
 end csrExpect
 
 /-! ### the dispatcher: a specialisation built from a registered one and conversions -/
